@@ -116,6 +116,18 @@ type replayFile struct {
 	Engine    string    `json:"engine"`
 	Env       []string  `json:"env,omitempty"` // extra environment of the shard (sub-scenario mode)
 	Extra     any       `json:"extra,omitempty"`
+	// see checks/lib.Replay
+	FromRandom bool    `json:"from_random,omitempty"`
+	WarmUp     *warmUp `json:"warm_up,omitempty"`
+	Note       string  `json:"note,omitempty"`
+	shard      int
+	nshards    int
+}
+
+type warmUp struct {
+	From    uint64 `json:"from"`
+	Shard   int    `json:"shard"`
+	NShards int    `json:"nshards"`
 }
 
 type knownFile struct {
@@ -260,11 +272,13 @@ func buildLib(cfg *propCfg, tier string, scratch string) *build {
 }
 
 type shardOut struct {
-	res    *shardResult
-	exit   int
-	stderr string
-	status string
-	env    []string
+	res     *shardResult
+	exit    int
+	stderr  string
+	status  string
+	env     []string
+	shard   int
+	nshards int
 }
 
 func runShard(b *build, cfg *propCfg, tier string, seed uint64, shard, nshards, budgetMS int, extra []string) shardOut {
@@ -301,9 +315,9 @@ func runShardAs(b *build, cfg *propCfg, tier string, seed uint64, shard, nshards
 		cmd.Process.Kill()
 		<-done
 		st, _ := os.ReadFile(statusPath)
-		return shardOut{exit: -2, stderr: tail(stderr.String(), 6000), status: string(st), env: extra}
+		return shardOut{exit: -2, stderr: tail(stderr.String(), 6000), status: string(st), env: extra, shard: shard, nshards: nshards}
 	}
-	so := shardOut{stderr: tail(stderr.String(), 12000), env: extra}
+	so := shardOut{stderr: tail(stderr.String(), 12000), env: extra, shard: shard, nshards: nshards}
 	if err != nil {
 		if ee, ok := err.(*exec.ExitError); ok {
 			so.exit = ee.ExitCode()
@@ -581,6 +595,7 @@ func aggregate(cfg *propCfg, tier string, seed uint64, b *build, outs []shardOut
 			if len(v.Env) == 0 {
 				v.Env = so.env
 			}
+			v.shard, v.nshards = so.shard, so.nshards
 			viols = append(viols, v)
 		}
 		notes = append(notes, r.Notes...)
@@ -595,6 +610,53 @@ func aggregate(cfg *propCfg, tier string, seed uint64, b *build, outs []shardOut
 		// an explicit tape beats a (seed, stream, index) reference; among explicit tapes the shortest
 		old, ok := byKey[k]
 		if !ok || (old.Random && !v.Random) || (old.Random == v.Random && !v.Random && len(v.Tape) < len(old.Tape)) {
+			byKey[k] = v
+		}
+	}
+	// Every replay file must reproduce in a fresh process. A violation found in-process may
+	// depend on what earlier cases left behind in that process (a package-level slice
+	// overwritten by an earlier document): such a file gets a warm-up prescription, or, when
+	// nothing reproduces it, a note that says so.
+	if b != nil && cfg.Engine == "lib" && os.Getenv("VERIF_NO_CONFIRM") == "" {
+		n := 0
+		for k, v := range byKey {
+			if n >= 12 || v.Violation.Kind == "hang" || v.Violation.Kind == "data-race" || v.Violation.Kind == "crash" || v.Random || len(v.Tape) == 0 {
+				continue
+			}
+			if _, ok := known.match(cfg.ID, v.Violation); ok {
+				continue
+			}
+			n++
+			same := func(rf *replayFile) bool {
+				got, _ := replayOnce(cfg, b, rf)
+				return got != nil && got.Kind+"@"+got.Site == k
+			}
+			if same(&v) {
+				continue
+			}
+			if v.FromRandom {
+				alt := v
+				alt.Random, alt.Tape = true, nil
+				if same(&alt) {
+					byKey[k] = alt
+					continue
+				}
+				base := uint64(0)
+				for _, e := range v.Env {
+					if strings.HasPrefix(e, "VERIF_INDEX_BASE=") {
+						base, _ = strconv.ParseUint(strings.TrimPrefix(e, "VERIF_INDEX_BASE="), 10, 64)
+					}
+				}
+				if v.nshards > 0 && v.Case-base < 3_000_000 {
+					alt.WarmUp = &warmUp{From: base, Shard: v.shard, NShards: v.nshards}
+					alt.Note = "shows only after the earlier cases of its shard have run in the same process (state carried between documents): the replay runs them first"
+					if same(&alt) {
+						byKey[k] = alt
+						continue
+					}
+				}
+			}
+			v.Note = "did not reproduce when replayed alone in a fresh process: it depends on process state this file cannot rebuild"
 			byKey[k] = v
 		}
 	}
